@@ -9,11 +9,11 @@ every nested `Subkeys` node — and later merges / `propagate` leave that positi
 -/
 namespace I18nVerif.AMap
 
-theorem mem_insert' {k : Str} {v : α} : ∀ (m : List (Str × α)) (x : Str × α),
+theorem mem_of_mem_insert' {k : Str} {v : α} : ∀ (m : List (Str × α)) (x : Str × α),
     x ∈ insert' k v m → x = (k, v) ∨ x ∈ m
   | [], x, h => by simp [insert', insert] at h; exact Or.inl h
   | (k1, v1) :: m, x, h => by
-    have ih := mem_insert' (k := k) (v := v) m x
+    have ih := mem_of_mem_insert' (k := k) (v := v) m x
     simp only [insert', insert] at ih h
     by_cases h1 : k1 = k
     · simp only [h1, beq_self_eq_true, if_true, List.mem_cons] at h
@@ -189,7 +189,7 @@ theorem mergeKeys_tab (recMerge : MergeRec) (hrec : RecTab recMerge) (top : Str)
       obtain ⟨q1, q2, q3, q4⟩ := ih _ _ _ _ _ _ n hmk hnd.2 hwf.2 hl.2 (hfr' v1)
       refine ⟨m1.trans q1, fun hn => q2 (m2 hn), fun hk => q3 ?_, fun ht => q4 ?_⟩
       · intro kv hm
-        rcases AMap.mem_insert' _ _ hm with rfl | hm
+        rcases AMap.mem_of_mem_insert' _ _ hm with rfl | hm
         · exact m3
         · exact (hk kv hm).mono m1
       · exact (TreeValid.mono m1 _ ht).concat m4
